@@ -52,13 +52,17 @@ def run(ctx):
     A, R, F = "add", "rem0", "ref"
     bv = vp.BatchValidator(ctx, "lockfree", "RegistryObsTrace", on_reject(ctx))
     progs = [(2, [[A, R, A], [F, F]], 2), (1, [[A, R, A], [F, F, F]], 2), (2, [[A, R], [A], [F, F]], 2),
-             (2, [[A, A], ["rec0", A], [F, F]], 2)]
+             (2, [[A, A], ["rec0", A], [F, F]], 2),
+             # exhaustive single-preemption sweeps of small programs with slot reuse by ANOTHER writer and with
+             # two concurrent recoverers (every window of one operation is hit by complete other operations)
+             (1, [[A, R], [A], [F]], 1), (2, [[A, R], [A, R], [F]], 1), (1, [[A, R, A], [A, R], [F, F]], 1),
+             (2, [[A], ["rec0"], ["rec0", A], [F]], 1)]
     if not q:
         progs += [(1, [[A, R, A, R], [F, F, F]], 3), (2, [[A, A, R, A], [A, R], [F, F]], 2),
                   (3, [[A, R, A], [A, A, R], [F, F, F]], 2), (2, [[A, A], ["rec0", A, R], [F, F, F]], 3)]
     for n, (cap, prog, bound) in enumerate(progs):
         trace, summ = drv(ctx, ["--cap", cap, "--prog", json.dumps(prog), "--mode", "dfs", "--bound", bound,
-                                "--runs", 400 if q else 40000, "--yield-after"], f"dfs-{n}")
+                                "--runs", (1500 if bound == 1 else 400) if q else 40000, "--yield-after"], f"dfs-{n}")
         ctx.evaluations += summ["executions"]
         recs = vp.read_ndjson(trace)
         ctx.distinct += len({tuple(r["sched"]) for r in recs if r.get("k") == "end"})
